@@ -71,6 +71,9 @@ def mutators(ix, R):
             why = []
             sts = fl.of('store')
             norm = lambda x: x.replace('_', '').lower()
+            if len(sts) > 1:
+                # the entry is rebuilt through something this rule does not read (a mutable copy edited in place ...)
+                raise AnalysisError('%d stores: the entry is not rewritten by one store of a tuple' % len(sts))
             if len(sts) != 1:
                 why.append('%d stores' % len(sts))
             else:
